@@ -777,4 +777,104 @@ def csvFinish (cfg : CsvCfg) (s : CsvState) : List (List Row) × Bool :=
   let f := csvFlush r.1
   (r.2 ++ f.2, f.1.err)
 
+/-! ## Avro streaming `Decoder` (arrow-avro/src/reader/mod.rs): the decode / flush state machine
+for single-object / Confluent framed rows, over an abstract prefix parser and an abstract
+*atomic* row decoder (`RecordDecoder::decode(buf, 1)` either appends one complete row or, on
+incomplete data, nothing — the behaviour the property demands; see known finding
+`avrod-partial-row` for where the code falls short of it). -/
+
+inductive PrefixRes
+  | needMore                      -- `Ok(Some(0))`: magic or fingerprint not complete yet
+  | mismatch                      -- `Ok(None)`: "Missing magic bytes and fingerprint"
+  | found (fp : Nat) (len : Nat)  -- `Ok(Some(len))`
+  deriving DecidableEq, Repr
+
+inductive RowRes (R : Type)
+  | incomplete | bad | ok (len : Nat) (row : R)
+
+structure AvCfg (R : Type) where
+  batchSize : Nat
+  pfx : Bytes → PrefixRes
+  known : Nat → Bool
+  row : Nat → Bytes → RowRes R
+
+/-- `Decoder { active_fingerprint, pending_schema, awaiting_body, remaining_capacity }` plus the
+rows buffered in the active `RecordDecoder` -/
+structure AvState (R : Type) where
+  active : Option Nat
+  pending : Option Nat
+  awaiting : Bool
+  cap : Nat
+  rows : List R
+  err : Bool
+
+def avInit {R : Type} (cfg : AvCfg R) : AvState R := ⟨none, none, false, cfg.batchSize, [], false⟩
+
+/-- `apply_pending_schema` -/
+def avApplyPending {R : Type} (s : AvState R) : AvState R :=
+  match s.pending with
+  | some fp => { s with active := some fp, pending := none }
+  | none => s
+
+/-- `handle_fingerprint`: a new fingerprint becomes the pending schema; if rows of the current
+schema are buffered, `remaining_capacity = 0` forces the caller to flush first -/
+def avFingerprint {R : Type} (cfg : AvCfg R) (s : AvState R) (fp : Nat) : Option (AvState R) :=
+  if s.active = some fp then some s
+  else if cfg.known fp then
+    some { s with pending := some fp, cap := if s.cap < cfg.batchSize then 0 else s.cap }
+  else none
+
+/-- `Decoder::decode`: the `while total_consumed < data.len() && self.remaining_capacity > 0`
+loop; returns the state and the number of bytes consumed -/
+def avDecode {R : Type} (cfg : AvCfg R) : Nat → AvState R → Bytes → AvState R × Nat
+  | 0, s, _ => (s, 0)
+  | fuel + 1, s, data =>
+    if data.isEmpty ∨ s.cap = 0 ∨ s.err then (s, 0)
+    else if s.awaiting then
+      match s.active with
+      | none => ({ s with err := true }, 0)
+      | some fp =>
+        match cfg.row fp data with
+        | .ok n r =>
+          let r2 := avDecode cfg fuel { s with cap := s.cap - 1, awaiting := false, rows := s.rows ++ [r] } (data.drop n)
+          (r2.1, n + r2.2)
+        | .incomplete => (s, 0)
+        | .bad => ({ s with err := true }, 0)
+    else
+      match cfg.pfx data with
+      | .needMore => (s, 0)
+      | .mismatch => ({ s with err := true }, 0)
+      | .found fp n =>
+        match avFingerprint cfg s fp with
+        | none => ({ s with err := true }, 0)
+        | some s1 =>
+          -- `total_consumed += n; self.apply_pending_schema_if_batch_empty(); self.awaiting_body = true;`
+          let s2 := if s1.cap = cfg.batchSize then avApplyPending s1 else s1
+          let r2 := avDecode cfg fuel { s2 with awaiting := true } (data.drop n)
+          (r2.1, n + r2.2)
+
+/-- `Decoder::flush`: the buffered rows (with their schema) if any, then the pending schema -/
+def avFlush {R : Type} (cfg : AvCfg R) (s : AvState R) : AvState R × List (Nat × List R) :=
+  let out := if s.cap = cfg.batchSize then [] else [(s.active.getD 0, s.rows)]
+  (avApplyPending { s with cap := cfg.batchSize, rows := [] }, out)
+
+/-- the caller's loop for one chunk: append to the rolling buffer, `decode`, drop what was
+consumed, `flush` whenever the batch is full; then the extra flush of the policy -/
+def avPush {R : Type} (cfg : AvCfg R) (extraFlush : Bool) :
+    Nat → AvState R × Bytes → List (Nat × List R) → (AvState R × Bytes) × List (Nat × List R)
+  | 0, sb, acc => (sb, acc)
+  | fuel + 1, (s, buf), acc =>
+    let r := avDecode cfg (2 * buf.length + 4) s buf
+    let buf' := buf.drop r.2
+    if r.1.err then ((r.1, buf'), acc)
+    else if r.1.cap = 0 then
+      let f := avFlush cfg r.1
+      if buf'.isEmpty then
+        ((f.1, buf'), acc ++ f.2)
+      else avPush cfg extraFlush fuel (f.1, buf') (acc ++ f.2)
+    else if extraFlush then
+      let f := avFlush cfg r.1
+      ((f.1, buf'), acc ++ f.2)
+    else ((r.1, buf'), acc)
+
 end ArrowModel.C14
